@@ -420,6 +420,19 @@ func c17LinearCase(rng *rand.Rand) c17Case {
 			mn, mx = float64(float32(mn)), float64(float32(mx))
 		}
 	}
+	nearInt := rng.Intn(60) == 0
+	if nearInt {
+		// (end + slack)/spacing within rounding of an integer: min = 0, max = n/(1+1e-10) or mirrored
+		// (exercises the admissible set of the Linear floor/ceil decisions)
+		n := float64(1 + rng.Intn(60))
+		if rng.Intn(3) == 0 {
+			n *= math.Pow(float64(eb), float64(rng.Intn(5)-2))
+		}
+		mn, mx = 0, n/(1+1e-10)
+		if rng.Intn(2) == 0 {
+			mn, mx = -mx, 0
+		}
+	}
 	if !(mn < mx) {
 		mx = mn + 1
 	}
